@@ -96,6 +96,32 @@ def oracle(ctx, p, o, i):
                         "harness": "parser_h pipeline (DefaultedLocales::default_of)"})
             # the arms `x | defaulted(x)` partition the locales
             comp = lv["defaults"]["compute"]
+            # ... and each arm `t | l1 | l2` holds exactly the locales whose walk ends at `t`
+            exp_groups = {}
+            for l in cfg["locales"]:
+                if p["files"].get((ns, l)) is None:
+                    continue
+
+                def defined2(x, ns=ns, path=path):
+                    t = p["files"].get((ns, x))
+                    if t is None:
+                        return False
+                    cur = merged_key_tree(t)
+                    for k in path:
+                        if not isinstance(cur, dict) or k not in cur:
+                            return False
+                        cur = cur[k]
+                        if cur == "null":
+                            return False
+                    return True
+                if not defined2(l):
+                    exp_groups.setdefault(walk(inherits, default, defined2, l), set()).add(l)
+            got_groups = {t: set(ls) for t, ls in comp}
+            if got_groups != exp_groups:
+                report_violation(ctx, "fallback:match-arms-differ-from-walk", {
+                    "case": project_text(p), "namespace": ns, "key_path": list(path), "inherits": inherits, "default": default,
+                    "expected_by_spec": {t: sorted(v) for t, v in exp_groups.items()}, "implementation": {t: sorted(v) for t, v in got_groups.items()},
+                    "harness": "parser_h pipeline (DefaultedLocales::compute)"})
             seen = [x for _, ls in comp for x in ls]
             if len(seen) != len(set(seen)):
                 report_violation(ctx, "fallback:arms-overlap", {"case": project_text(p), "key_path": list(path), "compute": comp})
